@@ -17,12 +17,22 @@ MANIFEST = {
                   "C09_builder_ctts_query); StscBox.AddEntry / SetSingleSampleDescriptionID leave the closed form of the table the history "
                   "describes = what DecodeStscSR builds, FirstSampleNr[i] = 1 + samples of the earlier runs (C09_builder_stsc, "
                   "C09_stsc_cache); boxes built by any histories from consistent file-level tables satisfy `consistent`, so every query "
-                  "theorem applies to API-built tables (C09_builder_consistent). The model is tied to /repo on every run: the real ctts and "
+                  "theorem applies to API-built tables (C09_builder_consistent). Arithmetic hypotheses stated exactly on the bare stts columns: "
+                  "GetDecodeTime needs none (C09_decode_time_exact: any uint32 columns, counts may sum past 2^32, every uint32 sample number "
+                  "1..N; C09_decode_time_past_end: Panic for every table past N), GetSampleNrAtTime needs exactly sum(counts)+1 < 2^32 "
+                  "(C09_sample_at_time_exact; refuted just above by C09_sample_at_time_wrap_refuted, known finding C09-F6), the FirstSampleNr "
+                  "cache needs raw_ok (C09_stsc_cache_wrap_refuted just above). Every query as a state transformer on the File / table-box "
+                  "state (composite ones thread the state through every call) returns the state it was given: C09_queries_pure, "
+                  "C09_copy_pure, C09_composite_answers (same answers as the functions of the query theorems), "
+                  "C09_queries_order_independent (any sequence of queries: each answer is the answer on the initial state). The model is tied to /repo on every run: the real ctts and "
                   "stsc boxes are built by a random history (empty box or DECODED PREFIX + the remaining rows split into 1-4 builder calls, "
                   "empty calls, SetSingleSampleDescriptionID over scrambled ids, refused calls in the malformed stream), the plain boxes by "
                   "struct literal / decoder / CreateSdtpBox; cache fields are compared after every call and EVERY query is run on EVERY "
                   "sample number 0..N+2, every chunk, every interval (small N) and every time; outcome class and value are compared with the "
-                  "extracted model, also on malformed tables. Explored only (search, not proved): the Go code itself.",
+                  "extracted model, also on malformed tables; a snapshot of every field (unexported ones included) of every real table box "
+                  "is compared before/after the queries of each case and the model driver runs the same queries as one run_all sequence "
+                  "(token pu). Explored only (search, not proved): the Go code itself; the (offset, size) pieces of copy_loop_st are not "
+                  "compared with the code (CopySampleData's bytes are checked by the search, its File/Mdat state by a snapshot).",
     "level_note": "Trusted: Coq kernel, extraction, OCaml/Go glue, hand transcription checked only differentially. "
                   "Only ctts and stsc have builder methods or cached state in the pinned library (stts, stsz, stss, sdtp, stco, co64 are "
                   "public slices: their state IS the table). The unexported singleSampleDescriptionID is observed through "
@@ -66,12 +76,15 @@ def run(ctx):
         "SetSingleSampleDescriptionID over a call history; the table a history describes (ctts_table / stsc_table) is checked "
         "against the generator's table on every valid case",
         "spec: coq/c09/C09Spec.v naive run-length expansion (durs, starts, ctos, sizes, chunk_counts, sample_chunks) and `consistent`",
-        "search oracle: harness/c09/tbl Expand (independent per-sample expansion in Go)",
+        "search oracle: harness/c09/tbl Expand (independent per-sample expansion in Go); built stsc box must Encode to the table the "
+        "accepted calls describe; fmt %+v snapshot of all table boxes / sha256 + fields of the mdat unchanged by queries and CopySampleData",
+        "model: coq/c09/C09PureModel.v states which Go methods write no receiver field (read in the code, checked by the snapshot only)",
     ]
     ctx.assumptions += [
         "tables satisfy C09Spec.consistent (u32 fields, totals of stts/ctts/stsz/stsc agree, stsc first chunks strictly increasing "
         "from 1 with samples-per-chunk >= 1, stss strictly increasing in 1..N, sdtp length N, chunk offsets + data size < 2^64)",
-        "GetSampleNrAtTime additionally: stts deltas positive except a final single zero-duration sample",
+        "GetSampleNrAtTime additionally: stts deltas positive except a final single zero-duration sample; on bare columns "
+        "(C09_sample_at_time_exact) the only arithmetic hypothesis is sum(counts)+1 < 2^32; GetDecodeTime (C09_decode_time_exact) has none",
         "sample numbers 1..N, chunk numbers 1..C, intervals 1<=a<=b<=N (behaviour outside is only compared model vs code, not specified)",
         "builder histories: ANY list of calls on a box DecodeStscSR returned or on an empty box (a call with description id 0 or a "
         "first AddEntry with firstChunk != 1 is refused: box and table untouched); C09_builder_consistent additionally asks the "
@@ -96,7 +109,9 @@ def run(ctx):
                         "+ calls; ctts rows split into 1-4 AddSampleCountsAndOffset calls (12% empty calls); stsc one AddEntry per row, 30% a "
                         "SetSingleSampleDescriptionID after a constant-id prefix whose ids were scrambled before (2/3); malformed stream: 50% "
                         "a refused call (unequal lengths / firstChunk != 1 on an empty box) in the history; plain boxes 50% literal, 50% "
-                        "decoder (sdtp also CreateSdtpBox); 35% of the stsc histories contain 1-2 calls with description id 0 "
+                        "decoder (sdtp also CreateSdtpBox); 3 fixed boundary cases on the real code: 2^32-1 samples in one stts run "
+                        "(sample number wraps to 0), counts summing to 2^33-2 (decode time of sample 2^32-1 exact), FirstSampleNr wrapping to 1; "
+                        "35% of the stsc histories contain 1-2 calls with description id 0 "
                         "(AddEntry / SetSingleSampleDescriptionID, any position); 2 fixed cases: the histories of C09Theorems.v",
         "builder_calls": sum(l.count(" bc") + l.count(" bs") for l in lines),
     }
